@@ -27,6 +27,8 @@ def gen_cases(ctx):
                 else:
                     st = r.choice(["walk", "ties", "periodic", "pgrid", "flatafter", "segments", "uniform", "tiny", "huge", "crash", "crash"])
                     feeds = [("n", 0, x) for x in scalar_stream(r, n, st, p=p, positive=True)]
+                if rep % 3 == 2:
+                    feeds = sprinkle_serde(feeds, r)
                 cases.append(Case("%s_i%d_p%d_%d" % (ind, pi, p, rep), [new_op(0, ind, pr)] + feeds, dump=(),
                                   meta={"ind": ind, "p": p, "n": n, "style": st}))
     return cases
@@ -46,12 +48,15 @@ def check_impl(ctx, cases):
     for c in cases:
         ind, p = c.meta["ind"], c.meta["p"]
         hi = 1.0 if ind == "ER" else 100.0
-        feeds = c.ops[1:]
+        allops = c.ops[1:]
+        feeds = []          # the inputs fed so far (serde round-trips and other non-feeding ops are not inputs)
         flowmax = 0.0
-        for t, (o, ob) in enumerate(zip(feeds, c.obs[1:]), start=1):
+        for o, ob in zip(allops, c.obs[1:]):
             v = f_of(ob)
             if v is None:
                 continue
+            feeds.append(o)
+            t = len(feeds)
             x = v[0]
             if o[0] == "b":
                 tp = (o[5] + o[3] + o[4]) / 3.0
